@@ -1389,27 +1389,43 @@ def misc_cases(ctx):
     out = []
     wrap = lambda body: (PRELUDE + "fn t_() { %s }\n" % body +
                          "try { t_(); print(\"RES ok\"); } catch e: Error { print(\"RES err ${e.cls().name()} ${e.message}\"); }\n")
+    def add(case):
+        """every (operation, kind) case in three storage classes of the operand: a plain local, a local that a closure
+        captures (boxed), and a captured variable used from inside the closure"""
+        name, src, exp = case
+        out.append(case)
+        m = re.search(r"fn t_\(\) \{ (let v = .*?;) (.*) \}\ntry \{ t_\(\);", src, re.S)
+        if not m:
+            return
+        decl, rest = m.group(1), m.group(2)
+        head, tail = src[:m.start(1)], src[m.end(2):]
+        out.append((name + "_boxed", head + decl + " let k_ = || v; " + rest + tail, exp))
+        if "launch" not in rest:
+            out.append((name + "_captured", head + decl + " let f_ = || { " + rest + " }; f_();" + tail, exp))
+
     for ex, k in VALUES:
         for nargs in (0, 1, 2):
             exp = r"RES err RuntimeError \w+( metaClass)? is not callable\." if k in NOT_CALLABLE else None
-            out.append(("call_%s_%d" % (k, nargs), wrap("let v = %s; v(%s);" % (ex, ", ".join(["1"] * nargs))), exp))
+            add(("call_%s_%d" % (k, nargs), wrap("let v = %s; v(%s);" % (ex, ", ".join(["1"] * nargs))), exp))
         exp = None if k == "class" else r"RES err RuntimeError Superclass must be a class\."
-        out.append(("inherit_" + k, wrap("let v = %s; class A : v {} let a = A();" % ex), exp))
-        out.append(("raise_" + k, wrap("raise %s;" % ex), r"RES err RuntimeError Can only raise an instance of Error"))
+        add(("inherit_" + k, wrap("let v = %s; class A : v {} let a = A();" % ex), exp))
+        add(("inherit_super_" + k, wrap("let v = %s; class A : v { m() { return super.m(); } n() { return super.m; } p(x) { return super.m(x); } } let a = A();" % ex), exp))
+        add(("inherit_super_local_class_" + k, wrap("let v = %s; class A : v { init() { super.init(); } } let a = A();" % ex), exp))
+        add(("raise_" + k, wrap("raise %s;" % ex), r"RES err RuntimeError Can only raise an instance of Error"))
         exp = None if k == "instance" else r"RES err RuntimeError Only instances have settable fields\."
-        out.append(("setprop_" + k, wrap("let v = %s; v.zz = 1;" % ex), exp))
-        out.append(("getprop_" + k, wrap("let v = %s; let q = v.zz;" % ex), None))
-        out.append(("invoke_" + k, wrap("let v = %s; v.zz();" % ex), None))
-        out.append(("chan_" + k, wrap("let v = %s; let c = chan(v);" % ex), None if k == "number" else r"RES err TypeError"))
-        out.append(("send_" + k, wrap("let v = %s; v <- 1;" % ex), None))
-        out.append(("recv_" + k, wrap("let v = %s; let q = <- v;" % ex) if k != "channel" else wrap("let v = chan(1); v <- 1; let q = <- v;"), None))
-        out.append(("iter_" + k, wrap("let v = %s; for q in v { }" % ex) if k not in ("channel",) else wrap("let v = [chan(1)]; for q in v { }"), None))
-        out.append(("index_" + k, wrap("let v = %s; let q = v[0];" % ex), None))
-        out.append(("neg_" + k, wrap("let v = %s; let q = -v;" % ex), None))
-        out.append(("add_" + k, wrap("let v = %s; let q = v + v;" % ex), None))
-        out.append(("less_" + k, wrap("let v = %s; let q = v < 1;" % ex), None))
-        out.append(("interp_" + k, wrap("let v = %s; let q = \"a ${v} b\";" % ex), None))
-        out.append(("launch_" + k, wrap("let v = %s; launch v(%s);" % (ex, "1" if k == "native" else "")), None))
+        add(("setprop_" + k, wrap("let v = %s; v.zz = 1;" % ex), exp))
+        add(("getprop_" + k, wrap("let v = %s; let q = v.zz;" % ex), None))
+        add(("invoke_" + k, wrap("let v = %s; v.zz();" % ex), None))
+        add(("chan_" + k, wrap("let v = %s; let c = chan(v);" % ex), None if k == "number" else r"RES err TypeError"))
+        add(("send_" + k, wrap("let v = %s; v <- 1;" % ex), None))
+        add(("recv_" + k, wrap("let v = %s; let q = <- v;" % ex) if k != "channel" else wrap("let v = chan(1); v <- 1; let q = <- v;"), None))
+        add(("iter_" + k, wrap("let v = %s; for q in v { }" % ex) if k not in ("channel",) else wrap("let v = [chan(1)]; for q in v { }"), None))
+        add(("index_" + k, wrap("let v = %s; let q = v[0];" % ex), None))
+        add(("neg_" + k, wrap("let v = %s; let q = -v;" % ex), None))
+        add(("add_" + k, wrap("let v = %s; let q = v + v;" % ex), None))
+        add(("less_" + k, wrap("let v = %s; let q = v < 1;" % ex), None))
+        add(("interp_" + k, wrap("let v = %s; let q = \"a ${v} b\";" % ex), None))
+        add(("launch_" + k, wrap("let v = %s; launch v(%s);" % (ex, "1" if k == "native" else "")), None))
     # channel capacities: integral, ≥ 1 and at most MAX_CHANNEL_CAPACITY (the buffer is allocated up front)
     for cap in ["0", "1", "2", "255", "256", "65536", "-1", "0.5", "1.5", "(0/0)", "(1/0)", "-(1/0)", "-0",
                 "16777217", "4294967296", "1e10", "1e19", "1e300", "9007199254740993"]:
